@@ -58,6 +58,13 @@ func c10Transports() []c10Transport {
 		{"post", func(id, s string) world.Auth { return world.Post(id, s) }},
 		{"both", func(id, s string) world.Auth { return world.Auth{Mode: "both", ID: id, Secret: s} }},
 		{"id-only", func(id, s string) world.Auth { return world.Public(id) }},
+		// both transports present, the secret in ONE of them and junk in the other
+		{"header-secret+body-junk", func(id, s string) world.Auth {
+			return world.Auth{Mode: "both", ID: id, Secret: s, BodySecret: "junk-that-is-not-the-secret"}
+		}},
+		{"header-junk+body-secret", func(id, s string) world.Auth {
+			return world.Auth{Mode: "both", ID: id, Secret: "junk-that-is-not-the-secret", BodySecret: s}
+		}},
 		{"basic-names-client+body-secret", func(id, s string) world.Auth {
 			// Authorization: Basic base64(id:) with an empty password, the secret travels in the body without client_id
 			return world.Auth{Mode: "raw", RawHeader: "Basic " + base64.StdEncoding.EncodeToString([]byte(url.QueryEscape(id)+":")), BodySecret: s}
@@ -120,6 +127,9 @@ func c10Decide(reg c10Reg, tr string, rel string, unknownClient bool) (int, stri
 		return -1, "unescaped-special-characters"
 	}
 	if reg.Kind == "plain" {
+		if tr == "header-secret+body-junk" || tr == "header-junk+body-secret" {
+			return -1, "both-transports-one-of-them-junk"
+		}
 		return 1, "plain-client-any-transport"
 	}
 	switch reg.Method {
@@ -127,17 +137,19 @@ func c10Decide(reg c10Reg, tr string, rel string, unknownClient bool) (int, stri
 		if tr == "basic" {
 			return 1, "basic-permitted"
 		}
-		if tr == "both" {
+		if tr == "both" || tr == "header-secret+body-junk" {
 			return -1, "both-transports"
 		}
+		// header-junk+body-secret: the only proof of the secret travels in the body, which the method does not permit
 		return 0, "transport-not-permitted"
 	case "client_secret_post":
 		if tr == "post" {
 			return 1, "post-permitted"
 		}
-		if tr == "both" {
+		if tr == "both" || tr == "header-junk+body-secret" {
 			return -1, "both-transports"
 		}
+		// header-secret+body-junk: the only proof of the secret travels in the header, which the method does not permit
 		return 0, "transport-not-permitted"
 	case "":
 		return -1, "oidc-client-without-method"
